@@ -33,12 +33,12 @@ static const char* FIXED_RULES =
     "rule last_byte { condition: uint8(filesize - 1) == 0x63 }\n"
     "rule fibers { strings: $f = /ab(c{1,50}c){1,50}d/ condition: $f }\n";
 
-// one rule with 70 strings; the last one ("a") reaches the 1,000,000-match limit
+// one rule with 221 strings (more than 64 * (rules / 64 + 1)); the last one ("a") reaches the 1,000,000-match limit
 // on the HOT buffer, the others never match
 static std::string many_rule()
 {
   std::string r = "rule many { strings:";
-  for (int i = 0; i < 69; i++) r += strf(" $s%02d = \"q%02dzq\"", i, i);
+  for (int i = 0; i < 220; i++) r += strf(" $s%03d = \"q%03dzq\"", i, i);
   r += " $hot = \"\\x1f\" condition: any of them }\n";
   // 70 small rules whose verdicts vary with the data, so that per-rule state
   // beyond the first 64 rules is exercised
